@@ -364,8 +364,9 @@ def run(chk):
     for bench, label, data in shipped(chk.tier):
         n = len(data['path-request'])
         orders = [('original', list(range(n)))]
-        if n > 1:
+        if n > 1 and (chk.tier == 'thorough' or n <= 10):
             orders.append(('reversed', list(reversed(range(n)))))
+        if n > 1:
             for k in range(nshuf if (chk.tier == 'thorough' or n <= 10) else 0):
                 o = list(range(n))
                 rng.shuffle(o)
@@ -383,7 +384,8 @@ def run(chk):
                     o = list(range(n))
                     rng.shuffle(o)
                     orders.append((f'shuffled-{k}', o))
-            jobs += b3_file(chk, bench, f'{label}@{bench}', {'path-request': reqs}, orders, cache, warm=True,
+            jobs += b3_file(chk, bench, f'{label}@{bench}', {'path-request': reqs}, orders, cache,
+                            warm=chk.tier == 'thorough' or not label.endswith('-B'),
                             api=chk.tier == 'thorough' or label.endswith('-A'))
         # include lists naming line elements of the own route (explicit routes) next to bidirectional requests whose
         # reverse direction runs through the same OMS
@@ -420,7 +422,7 @@ def run(chk):
             orders = [('original', list(range(n))), ('reversed', list(reversed(range(n))))]
             jobs += b3_file(chk, bench, f'{label}@{bench}', {'path-request': reqs}, orders, cache, api=False)
     # seeded random batches (every blocking reason, fixed / multi slots, aggregation), each in several orders
-    nrand = 2 if chk.tier == 'quick' else 32
+    nrand = 1 if chk.tier == 'quick' else 32
     for b in range(nrand):
         bench = 'meshV2+island' if b % 4 != 3 else 'testTopology'
         reqs = pu.loadable(bench, pu.random_batch(rng, bench, f'r{b}-', 10))
